@@ -53,7 +53,10 @@ def build(case):
     from ndcube import NDCube
     rng = random.Random(case["wseed"])
     shape = tuple(case["shape"])
-    wcs = W.make_wcs(rng, shape, case["fam"], True)
+    # one cube in six holds a WCS that declares another frame than the data (larger or smaller): the coordinates
+    # are those of the cube's elements, one per element of the data
+    frame = {0: "larger", 1: "smaller"}.get(case["wseed"] % 12, True)
+    wcs = W.make_wcs(rng, shape, case["fam"], frame)
     cube = NDCube(C.payload(shape, 0), wcs=wcs)
     for k, ec in enumerate(case["ecs"]):
         n = shape[ec["axis"]]
